@@ -15,7 +15,8 @@ E1 (exact reals, ties of round-to-nearest-step excluded):
   H1/MeanFieldTempo.field                               _time, _compute_field, _compute_field_derivative
   H1/Tempo.compute, H1/MeanFieldTempo.compute           start_time handed to System.get_propagators, labels
   H1/PtTebd                                             PtTebd.time / results['time']
-  H1/Control.get_controls                               float control times -> steps
+  H1/compute_correlations(_nt)                         the REAL correlation functions, real TimeDependentSystem, float correlation time
+  H1/Control.get_controls                               float control times -> steps (concrete exact dt 1/4, 1/10)
   H1/_parse_times/{float,interval}                      float correlation times / intervals -> steps
 E2 (fpx twin encoding, error model for 'holds'):
   H1f/_parse_times                                      float rounding of int(np.round((t-start)/dt)) for shifted vs unshifted doubles
